@@ -100,6 +100,12 @@ func TestC08Cipher(t *testing.T) {
 		// messages of a key epoch: message i and message i+500 carry equal
 		// plaintexts under equal nonces of successive key generations
 		payload := func(i int) []byte {
+			if i >= perDir-650 {
+				// more than a whole key epoch of records with one and the
+				// same plaintext: any two of them that meet the same key
+				// and nonce (at whatever distance) show as equal ciphertext
+				return append([]byte(nil), marker...)
+			}
 			switch i % 10 {
 			case 0:
 				return []byte{}
